@@ -311,7 +311,15 @@ def run_harness(ctx, h):
     pkgdir = os.path.join(REPO, h.pkg)
     overlay = {}
     for target, src in h.files.items():
-        overlay[os.path.join(pkgdir, target)] = os.path.join(VERIF, "harness", src)
+        spath = os.path.join(VERIF, "harness", src)
+        if src.endswith(".tmpl"):
+            # shared between harnesses living in different packages: substitute the package clause
+            with open(spath) as f:
+                body = f.read().replace("PACKAGE_NAME", package_name(pkgdir))
+            spath = os.path.join(sdir, target)
+            with open(spath, "w") as f:
+                f.write(body)
+        overlay[os.path.join(pkgdir, target)] = spath
     if h.common:
         with open(os.path.join(VERIF, "harness", "common", "common.go.tmpl")) as f:
             body = f.read().replace("PACKAGE_NAME", package_name(pkgdir))
